@@ -154,3 +154,33 @@ func H_C16_numbers() {
 	}
 	verifReach("end")
 }
+
+// FormatString inside a history: the same container is formatted with one indent, then (optionally after
+// a mutation) with another — each answer is the canonical layout of the *current* String() for the
+// indent of *that* call.
+func H_C16_repeated_calls() {
+	verifBound("INDENT_PAIRS", 121)
+	n1 := nondetIntRange(0, 10)
+	n2 := nondetIntRange(0, 10)
+	x := nondetInt()
+	verifAssume(verifAnd(x >= 0, x < 10))
+	var c any
+	isList := nondetIntRange(0, 1) == 0
+	if isList {
+		c = NewList(x, NewList(true), "s")
+	} else {
+		c = NewObject("a", NewList(x, nil))
+	}
+	out1, p1 := hFormatAny(c, n1)
+	verifAssert(!p1 && out1 == refIndent(hStringAny(c), n1), "FormatString is the canonical layout: one element per line, n spaces per level, empty containers on one line")
+	if nondetIntRange(0, 1) == 1 {
+		if isList {
+			c.(List).Add(x)
+		} else {
+			c.(Object).Set("b", x)
+		}
+	}
+	out2, p2 := hFormatAny(c, n2)
+	verifAssert(!p2 && out2 == refIndent(hStringAny(c), n2), "a later FormatString is the canonical layout of the current content for the indent of that call")
+	verifReach("end")
+}
